@@ -927,7 +927,14 @@ def run_case(case, tier="quick") -> dict:
     res = evaluate(inp)
     out = {"case": case, "family": family, "digest": _digest(inp), "tags": res["tags"], "props": res["props"]}
     bad = any(r["app"] and (not r["k"] or r["o"] is not None) for r in res["props"].values())
-    sample = str(case).endswith((":0", ":1")) and inp["kind"] not in ("icase", "bag")
+    sample = str(case).endswith((":0", ":1"))
+    if sample and inp["kind"] in ("icase", "bag"):
+        # batches are large: keep a short excerpt as the written-out sample
+        inp = dict(inp)
+        for key in ("items", "recs", "pairs"):
+            if key in inp and isinstance(inp[key], list):
+                inp[key] = inp[key][:4]
+        inp["excerpt_of_batch"] = True
     if bad or sample:
         small = res.get("small")
         out["input"] = small if (bad and small is not None) else inp
